@@ -14,8 +14,10 @@ from . import sigma as sg
 from .core import OutOfReach, PathInfeasible, TooManyPaths
 from .harness import ConcreteBackend, OutOfContract, SymBackend
 
-TIMEOUT_MS = int(os.environ.get("PVC_TIMEOUT_MS", "10000"))
-RLIMIT = int(os.environ.get("PVC_RLIMIT", "0"))
+TIMEOUT_MS = int(os.environ.get("PVC_TIMEOUT_MS", "60000"))  # last-stage wall-clock budget
+STAGE_MS = int(os.environ.get("PVC_STAGE_MS", "8000"))  # early-stage wall-clock budget
+RLIMIT = int(os.environ.get("PVC_RLIMIT", "2000000000"))
+QUICK_RLIMIT = int(os.environ.get("PVC_QUICK_RLIMIT", "2500000"))
 
 
 class ObResult:
@@ -43,6 +45,24 @@ def _mk_solver(ob, axioms, timeout_ms):
     for a in axioms:
         s.add(a)
     s.add(z3.Not(ob.goal))
+    return s
+
+
+def _quick_solver(ob, axioms, timeout_ms=400, qf_only=False):
+    """solver for the small side queries of the fact generators.  Budgets are z3 resource
+    units (deterministic), the wall-clock timeout only guards against hangs."""
+    s = z3.Solver()
+    s.set("timeout", 20000)
+    s.set("rlimit", QUICK_RLIMIT * max(1, timeout_ms // 400))
+    s.set("smt.mbqi", False)
+    for h in ob.hyps:
+        if qf_only and z3.is_quantifier(h):
+            continue
+        s.add(h)
+    for a in axioms:
+        if qf_only and z3.is_quantifier(a):
+            continue
+        s.add(a)
     return s
 
 
@@ -96,52 +116,64 @@ class _FakeCtx:
         return "%s!sf%d" % (base, self.n)
 
 
-def sigma_facts(ob, axioms, depth=2):
-    """Sum facts (proved in lemmas/SigmaRules.lean): for a sum whose summand is provably
-    non-negative on its range: the sum is >= 0 and every summand is <= the sum."""
+def _monotone_facts(ob, axioms, apps, fc):
+    """Sum monotonicity (lemmas/SigmaRules.lean: sum_le_sum): two sums over the same
+    ranges whose summands are ordered term-wise are ordered."""
+    import itertools as _it
+
+    facts = []
+    groups = {}
+    for app in apps:
+        info = sg.sigma_registry()[app.decl().name()]
+        key = tuple(a.get_id() for a in app.children()[: info.nb])
+        if info.nb <= 2:
+            groups.setdefault((info.nb, tuple(sorted(key))), []).append(app)
+    for (nb, _), grp in groups.items():
+        if len(grp) < 2 or len(grp) > 6:
+            continue
+        for A, Bp in _it.permutations(grp, 2):
+            bA, bodyA = sg.unfold(A, fc)
+            bB, bodyB = sg.unfold(Bp, fc)
+            for perm in _it.permutations(range(nb)):
+                if not all(bA[i][1].eq(bB[perm[i]][1]) for i in range(nb)):
+                    continue
+                subs = [(bB[perm[i]][0], bA[i][0]) for i in range(nb)]
+                body2 = z3.substitute(bodyB, *subs)
+                s = _quick_solver(ob, axioms)
+                s.set("rlimit", max(QUICK_RLIMIT // 12, 1))
+                for v, n in bA:
+                    s.add(v >= 0, v < n)
+                s.add(bodyA > body2)
+                if s.check() == z3.unsat:
+                    facts.append(A <= Bp)
+                    break
+    return facts
+
+
+_APP_FACTS = {}  # app id -> list of (frozenset hyp ids, facts, new frontier terms)
+
+
+def sigma_facts(ob, axioms, depth=2, cheap_only=False):
+    """Sum facts (proved in lemmas/SigmaRules.lean).  cheap: empty / singleton ranges.
+    full: for a sum whose summand is provably non-negative on its range, the sum is >= 0,
+    every summand is <= the sum, sub-sums and partial sums are bounded by it; monotonicity."""
     facts = []
     fc = _FakeCtx()
     done = set()
+    all_apps = []
+    hyp_ids = frozenset(h.get_id() for h in ob.hyps) | frozenset(a.get_id() for a in axioms)
     frontier = [ob.goal] + list(ob.hyps)
     for _ in range(depth):
         apps = [a for a in _collect_sigma_apps(frontier) if a.get_id() not in done and not _has_var(a)]
+        all_apps.extend(apps)
         frontier = []
         for app in apps:
             done.add(app.get_id())
             binders, body = sg.unfold(app, fc)
-            ks = [v for v, _ in binders]
-            rng = z3.And(*[z3.And(v >= 0, v < n) for v, n in binders])
-            s = z3.Solver()
-            s.set("timeout", 2000)
-            for h in ob.hyps:
-                s.add(h)
-            for a in axioms:
-                s.add(a)
-            s.add(rng)
-            s.add(body < 0)
-            nonneg_ok = s.check() == z3.unsat
-            if nonneg_ok:
-                facts.append(app >= 0)
-                facts.append(z3.ForAll(ks, z3.Implies(rng, body <= app)))
-                # a sum is zero iff all terms are (follows from the two above); also
-                # empty range => 0
-                for v, n in binders:
-                    facts.append(z3.Implies(n <= 0, app == 0))
-                if len(binders) == 2:
-                    # partial sums of a non-negative double sum are bounded by it
-                    (v1, n1), (v2, n2) = binders
-                    for (fv, fn_), (sv, sn) in (((v1, n1), (v2, n2)), ((v2, n2), (v1, n1))):
-                        try:
-                            part = sg.multi_sigma([(sv, sn)], body, fc)
-                            facts.append(
-                                z3.ForAll([fv], z3.Implies(z3.And(fv >= 0, fv < fn_), z3.And(part <= app, part >= 0)))
-                            )
-                        except Exception:
-                            pass
-            if nonneg_ok:
-                facts.extend(_subsum_facts(app, binders, body, fc, ob, axioms, frontier))
+            # -- cheap facts (no side queries)
+            for v, n in binders:
+                facts.append(z3.Implies(n <= 0, app == 0))
             if len(binders) >= 2:
-                # a binder whose range is a singleton can be eliminated
                 for bi, (v, n) in enumerate(binders):
                     others = [b for j, b in enumerate(binders) if j != bi]
                     try:
@@ -153,9 +185,55 @@ def sigma_facts(ob, axioms, depth=2):
             if len(binders) == 1:
                 v, n = binders[0]
                 facts.append(z3.Implies(n == 1, app == z3.substitute(body, (v, z3.IntVal(0)))))
-                facts.append(z3.Implies(n <= 0, app == 0))
             frontier.append(body)
+            if cheap_only:
+                continue
+            # -- facts needing side queries: cached per application (monotone in hyps)
+            hit = None
+            for hs, fs, fr, _alive in _APP_FACTS.get(app.get_id(), []):
+                if hs <= hyp_ids:
+                    hit = (fs, fr)
+                    break
+            if hit is None:
+                fs, fr = _expensive_app_facts(ob, axioms, app, binders, body, fc)
+                # the tuple keeps app / hypotheses alive: z3 recycles ast ids of dead terms
+                _APP_FACTS.setdefault(app.get_id(), []).append((hyp_ids, fs, fr, (app, list(ob.hyps), list(axioms))))
+                sg._keep.append(app)
+                hit = (fs, fr)
+            facts.extend(hit[0])
+            frontier.extend(hit[1])
+    if not cheap_only:
+        try:
+            facts.extend(_monotone_facts(ob, axioms, all_apps, fc))
+        except Exception:
+            pass
     return facts
+
+
+def _expensive_app_facts(ob, axioms, app, binders, body, fc):
+    facts, frontier = [], []
+    ks = [v for v, _ in binders]
+    rng = z3.And(*[z3.And(v >= 0, v < n) for v, n in binders])
+    s = _quick_solver(ob, axioms)
+    s.add(rng)
+    s.add(body < 0)
+    if s.check() != z3.unsat:
+        return facts, frontier
+    facts.append(app >= 0)
+    facts.append(z3.ForAll(ks, z3.Implies(rng, body <= app)))
+    if len(binders) == 2:
+        # partial sums of a non-negative double sum are bounded by it
+        (v1, n1), (v2, n2) = binders
+        for (fv, fn_), (sv, sn) in (((v1, n1), (v2, n2)), ((v2, n2), (v1, n1))):
+            try:
+                part = sg.multi_sigma([(sv, sn)], body, fc)
+                facts.append(
+                    z3.ForAll([fv], z3.Implies(z3.And(fv >= 0, fv < fn_), z3.And(part <= app, part >= 0)))
+                )
+            except Exception:
+                pass
+    facts.extend(_subsum_facts(app, binders, body, fc, ob, axioms, frontier))
+    return facts, frontier
 
 
 def _find_index_terms(body, v):
@@ -200,12 +278,7 @@ def _subsum_facts(app, binders, body, fc, ob, axioms, frontier):
             continue
         others = [b for k, b in enumerate(binders) if k != bi]
         # the extended summand must be non-negative on the whole range
-        s = z3.Solver()
-        s.set("timeout", 2000)
-        for h in ob.hyps:
-            s.add(h)
-        for a in axioms:
-            s.add(a)
+        s = _quick_solver(ob, axioms)
         s.add(j >= 0, j < core.zi(upper))
         for ov, on in others:
             s.add(ov >= 0, ov < on)
@@ -221,19 +294,95 @@ def _subsum_facts(app, binders, body, fc, ob, axioms, frontier):
     return facts
 
 
+def unary_fn_arg_facts(ob, axioms, names=("sqrt", "Phi")):
+    """congruence helper: for two applications f(a), f(b) of an uninterpreted real function
+    in the goal, try to prove a == b (non-linear arithmetic) under the hypotheses and add
+    the equality, so that f(a) == f(b) follows by congruence."""
+    apps = {}
+    stack = [ob.goal]
+    seen = set()
+    while stack:
+        t = stack.pop()
+        if t.get_id() in seen:
+            continue
+        seen.add(t.get_id())
+        if z3.is_app(t):
+            if t.decl().kind() == z3.Z3_OP_UNINTERPRETED and t.decl().name() in names and t.num_args() == 1:
+                apps.setdefault(t.decl().name(), {})[t.arg(0).get_id()] = t.arg(0)
+            stack.extend(t.children())
+    facts = []
+    for nm, args in apps.items():
+        lst = list(args.values())
+        if len(lst) > 6:
+            continue
+        for i in range(len(lst)):
+            for j in range(i + 1, len(lst)):
+                a, b = lst[i], lst[j]
+                s = _quick_solver(ob, [], 2000, qf_only=True)
+                # equality is only needed where both are defined: assume every divisor
+                # occurring in the two arguments is non-zero
+                dens = _denominators(a) + _denominators(b)
+                guard = z3.And(*[d != 0 for d in dens]) if dens else z3.BoolVal(True)
+                s.add(guard)
+                s.add(a != b)
+                if s.check() == z3.unsat:
+                    facts.append(z3.Implies(guard, a == b))
+    return facts
+
+
+def _denominators(e):
+    out = {}
+    stack = [e]
+    seen = set()
+    while stack:
+        t = stack.pop()
+        if t.get_id() in seen:
+            continue
+        seen.add(t.get_id())
+        if z3.is_app(t):
+            if t.decl().kind() == z3.Z3_OP_DIV and not z3.is_rational_value(t.arg(1)):
+                out[t.arg(1).get_id()] = t.arg(1)
+            stack.extend(t.children())
+    return list(out.values())
+
+
+def _solve(ob, extra, rlimit, qf_only, timeout_ms):
+    s = z3.Solver()
+    s.set("timeout", timeout_ms)
+    s.set("smt.mbqi", False)
+    s.set("rlimit", max(int(rlimit), 1))
+    for h in list(ob.hyps) + list(extra):
+        if qf_only and z3.is_quantifier(h):
+            continue
+        s.add(h)
+    s.add(z3.Not(ob.goal))
+    return s, s.check()
+
+
 def discharge(ob, axioms, timeout_ms=None, want_model=False):
-    """-> (status, secs, model|None)  status in proved / refuted / unknown"""
+    """-> (status, secs, model|None)  status in proved / refuted / unknown.
+    Staged: quantifier-free attempts with the equality certificates first, then the Sigma
+    fact generators, quantified hypotheses last."""
     t0 = time.time()
     g = core._bconst(ob.goal)
     if g is True:
         return "proved", 0.0, None
+    tmo = timeout_ms or TIMEOUT_MS
     has_sigma = bool(sg.sigma_registry())
-    s = _mk_solver(ob, axioms, min(1500, timeout_ms or TIMEOUT_MS) if has_sigma else (timeout_ms or TIMEOUT_MS))
-    r = s.check()
+    axioms = list(axioms) + list((ob.info or {}).get("facts", []))
+    s, r = _solve(ob, axioms, RLIMIT, True, min(tmo, STAGE_MS))
+    if r != z3.unsat:
+        s, r = _solve(ob, axioms, RLIMIT, False, min(tmo, STAGE_MS))
     if r != z3.unsat and has_sigma:
-        facts = sigma_facts(ob, axioms)
-        s = _mk_solver(ob, list(axioms) + facts, timeout_ms or TIMEOUT_MS)
-        r = s.check()
+        cheap = sigma_facts(ob, axioms, cheap_only=True)
+        if cheap:
+            s, r = _solve(ob, axioms + cheap, RLIMIT, True, min(tmo, STAGE_MS))
+    if r != z3.unsat:
+        facts = (sigma_facts(ob, axioms) if has_sigma else []) + unary_fn_arg_facts(ob, axioms)
+        if facts or has_sigma:
+            s, r = _solve(ob, axioms + facts, RLIMIT, True, min(tmo, 3 * STAGE_MS))
+            if r != z3.unsat:
+                s, r = _solve(ob, axioms + facts, RLIMIT, False, tmo)
     secs = time.time() - t0
     if r == z3.unsat:
         return "proved", secs, None
